@@ -196,7 +196,7 @@ pub fn run_c11(run: &Run) {
     // mid-size objects: ring ADFs with 6 and 7 statements and large sparse ADFs, sequences of length <= 2 (<= 1)
     {
         let mid: Vec<(Source, usize)> = if quick {
-            vec![(Source::Ring(6, run.seed % 4096, 4096), 2), (Source::Ring(7, run.seed % 65536, 65536), 2), (Source::Sparse(run.seed * 1000, 12), 1)]
+            vec![(Source::Ring(6, run.seed % 4096, 4096), 2), (Source::Ring(7, run.seed % 65536, 65536), 2), (Source::Sparse(run.seed * 1000, 6), 1)]
         } else {
             vec![(Source::Ring(6, run.seed % 256, 256), 2), (Source::Ring(7, run.seed % 4096, 4096), 2), (Source::Sparse(run.seed * 1000, 60), 1)]
         };
